@@ -376,6 +376,54 @@ pub fn gen(tier: &str) {
             }
         }
     }
+    // 7b. ROUND 2: format strings with ANY interleaving of literal and interpolated parts (0..=5 parts, adjacent
+    // interpolations, adjacent / empty literals, literals that contain the formatter's own metacharacters)
+    let lit_pool: [&str; 20] = ["", "x", "echo ", " ", "&", "%4", "%", "<b>", "\"", "\\", "'", "\u{e9}", ",", "\n", "\t", "&am", "=", "a b", "$(", ";"];
+    let jq_lit = |l: &str| -> String {
+        let mut o = String::new();
+        for c in l.chars() {
+            match c {
+                '"' => o.push_str("\\\""),
+                '\\' => o.push_str("\\\\"),
+                '\n' => o.push_str("\\n"),
+                '\t' => o.push_str("\\t"),
+                c => o.push(c),
+            }
+        }
+        o
+    };
+    let nshapes = if thorough { 1500 } else { 300 };
+    for name in ["sh", "html", "uri", "csv", "tsv", "json", "base64", "text", "urid", "htmld", "base64d"] {
+        for _ in 0..nshapes {
+            let nparts = rng.below(6);
+            let mut code = format!("@{name} \"");
+            let mut req = format!("c13.fmtn {name}");
+            let mut inputs = vec![];
+            for _ in 0..nparts {
+                if rng.below(2) == 0 {
+                    let l = lit_pool[rng.below(lit_pool.len())];
+                    code.push_str(&jq_lit(l));
+                    req.push_str(&format!(" L {}", vx::enc(&tstr(l.as_bytes()))));
+                } else {
+                    let mut v = fvals[rng.below(fvals.len())].clone();
+                    if (name == "csv" || name == "tsv") && rng.below(4) != 0 && !matches!(v, Val::Arr(_)) {
+                        v = if rng.below(2) == 0 { arr(vec![v]) } else { arr(vec![v, fvals[rng.below(fvals.len())].clone()]) };
+                        if let Val::Arr(a) = &v {
+                            if a.iter().any(|x| matches!(x, Val::Arr(_))) {
+                                v = arr(vec![tstr(b"a,\"b")]);
+                            }
+                        }
+                    }
+                    code.push_str(&format!("\\(.[{}])", inputs.len()));
+                    req.push_str(&format!(" I {}", vx::enc(&v)));
+                    inputs.push(v);
+                }
+            }
+            code.push('"');
+            let f = compile_vars(&code, &vars()).unwrap_or_else(|e| panic!("{code}: {e}"));
+            out.emit(req, run_f(&f, arr(inputs), Val::Null, Val::Null));
+        }
+    }
     rx_gen(&mut rng, &mut out, thorough, &at);
 }
 
@@ -580,6 +628,7 @@ const PROPS: &[(&str, &str)] = &[
 const PROPS2: &[(&str, &str)] = &[
     ("join_split", "(split($a) | join($a)) == ."),
     ("indices_slice", ". as $s | ($a | length) as $n | all(indices($a)[]; . as $i | $s[$i:][:$n] == $a)"),
+    ("indices_complete", ". as $s | ($a | length) as $n | if $n == 0 then indices($a) == [] else [range(0; length + 1) | select(. as $i | $s[$i:][:$n] == $a)] == indices($a) end"),
     ("trimstr", "(if startswith($a) then $a + ltrimstr($a) else ltrimstr($a) end) == . and (if endswith($a) then rtrimstr($a) + $a else rtrimstr($a) end) == ."),
 ];
 
@@ -765,6 +814,41 @@ pub fn eval() {
                 match compile_vars(&code, &vs) {
                     Ok(f) => run_f(&f, arr(vec![get(1), get(3)]), Val::Null, Val::Null),
                     Err(e) => e,
+                }
+            }
+            Some("c13.fmtn") => {
+                // c13.fmtn <name> (L <vx> | I <vx>)*
+                let mut code = format!("@{} \"", toks[1]);
+                let mut inputs = vec![];
+                let mut it = toks.iter().skip(2).copied().peekable();
+                let mut ok = true;
+                while let Some(tag) = it.next() {
+                    let Some(v) = vx::dec_tokens(&mut it) else {
+                        ok = false;
+                        break;
+                    };
+                    if tag == "L" {
+                        if let Val::TStr(b) = &v {
+                            for c in String::from_utf8_lossy(b).chars() {
+                                match c {
+                                    '"' => code.push_str("\\\""),
+                                    '\\' => code.push_str("\\\\"),
+                                    '\n' => code.push_str("\\n"),
+                                    '\t' => code.push_str("\\t"),
+                                    c => code.push(c),
+                                }
+                            }
+                        }
+                    } else {
+                        code.push_str(&format!("\\(.[{}])", inputs.len()));
+                        inputs.push(v);
+                    }
+                }
+                code.push('"');
+                match (ok, compile_vars(&code, &vs)) {
+                    (true, Ok(f)) => run_f(&f, arr(inputs), Val::Null, Val::Null),
+                    (_, Err(e)) => e,
+                    _ => "bad-request".into(),
                 }
             }
             Some("c13.prop") => {
